@@ -22,18 +22,20 @@ type c12Access struct {
 }
 
 type c12Method struct {
-	Index      int
-	Name       string
-	Paths      int
-	Accesses   map[c12Access]bool
-	Intra      []string // lock-discipline violations found on single paths
-	MultiWrite bool     // some path performs >= 2 guarded writes (a reader in between sees a half-applied state)
-	WriteHeld  map[string]bool
-	Vector     []ReplayVal
-	Params     map[string]int
-	AccessVec  map[c12Access][]ReplayVal // inputs of a path that performs the access
-	AccessPar  map[c12Access]map[string]int
-	IntraVec   map[string][]ReplayVal
+	Index       int
+	Name        string
+	Paths       int
+	Accesses    map[c12Access]bool
+	Intra       []string // lock-discipline violations found on single paths
+	MultiWrite  bool     // some path performs >= 2 guarded writes (a reader in between sees a half-applied state)
+	WriteHeld   map[string]bool
+	Vector      []ReplayVal
+	Params      map[string]int
+	AccessVec   map[c12Access][]ReplayVal // inputs of a path that performs the access
+	AccessPar   map[c12Access]map[string]int
+	IntraVec    map[string][]ReplayVal
+	IntraPar    map[string]map[string]int
+	intraStrong map[string]bool
 }
 
 type c12Finding struct {
@@ -52,8 +54,13 @@ func summarizeTracks(m *c12Method, tracks []*trackState) {
 	for _, t := range tracks {
 		m.Paths++
 		for _, v := range t.violations {
-			if m.IntraVec[v] == nil && t.vector != nil {
+			if t.vector != nil && (m.IntraVec[v] == nil || (t.storeSplit && strings.Contains(v, "critical sections") && !m.intraStrong[v])) {
 				m.IntraVec[v] = t.vector
+				m.IntraPar[v] = t.params
+				if m.intraStrong == nil {
+					m.intraStrong = map[string]bool{}
+				}
+				m.intraStrong[v] = t.storeSplit
 			}
 			dup := false
 			for _, x := range m.Intra {
@@ -232,7 +239,11 @@ func buildRaceBinary(pkg *ssa.Package, files []string) (string, error) {
 
 // runRacePair runs methods a and b concurrently on one instance under the race detector.
 func runRacePair(bin, vecFile string, a, b int) string {
-	cmd := exec.Command(bin, "-test.run", "^TestVerifC12Pair$", "-test.timeout", "60s")
+	test := "^TestVerifC12Pair$"
+	if b == -2 {
+		test = "^TestVerifC12Split$"
+	}
+	cmd := exec.Command(bin, "-test.run", test, "-test.timeout", "60s")
 	cmd.Dir = repoDir
 	cmd.Env = append(os.Environ(), "VERIF_C12_VECTOR="+vecFile, fmt.Sprintf("VERIF_C12_A=%d", a), fmt.Sprintf("VERIF_C12_B=%d", b), "GORACE=halt_on_error=1")
 	out, _ := cmd.CombinedOutput()
@@ -242,6 +253,8 @@ func runRacePair(bin, vecFile string, a, b int) string {
 		return "data race reported by the race detector"
 	case strings.Contains(s, "C12-DEADLOCK"):
 		return "deadlock (both goroutines blocked)"
+	case strings.Contains(s, "C12-SPLIT"):
+		return "lock released in the middle of the call (a waiting writer got it between two storage accesses)"
 	case strings.Contains(s, "C12-HALF-APPLIED"):
 		return "half-applied state observed"
 	case strings.Contains(s, "C12-PAIR-OK"):
